@@ -416,7 +416,18 @@ let rec run (cmd : sexp) : sexp =
             let e = penv_ rels ss ex in
             L (Stdlib.List.map (fun x -> L [ob (EvalModel.m_eval_i fuel a (Sem508.env_of_penv e) e.Sem508.pe_extras x); ob (EvalModel.m_eval_extras_i fuel a e.Sem508.pe_extras x)]) (!st).InternI.si_regs)
         | _ -> failwith "driver: environment expected") envs in
-      L (A "ok" :: out @ (if envs = [] then [] else [L (A "evals" :: evals)]))
+      (* the order on ids (CmpModel.m_cmp_i: the crate's Ord walk over kind()) for a band of register pairs of the final store *)
+      let regs = Stdlib.Array.of_list (!st).InternI.si_regs in
+      let n = Stdlib.Array.length regs in
+      let oc = function Some Datatypes.Eq -> A "Eq" | Some Datatypes.Lt -> A "Lt" | Some Datatypes.Gt -> A "Gt" | None -> A "stuck" in
+      let cmps = ref [] in
+      for i = n - 1 downto 0 do
+        for d = 3 downto 0 do
+          let j = (i * 7 + d * 5 + 1) mod (if n = 0 then 1 else n) in
+          cmps := L [A (string_of_int i); A (string_of_int j); oc (CmpModel.m_cmp_i a regs.(i) regs.(j))] :: !cmps
+        done
+      done;
+      L (A "ok" :: out @ (if envs = [] then [] else [L (A "cmps" :: !cmps); L (A "evals" :: evals)]))
   | L [A "sem508"; pv; pfv; rels; ss; ex; a] ->
       let e = penv_ rels ss ex in
       let t = Sem508.compile (num pv) (num pfv) (mast a) in
